@@ -293,6 +293,23 @@ def run(ctx, config):
             if is_e(c, "bin") and c[1] in ("<=", "<", ">", ">=") and eq(c[2], ["var", ln, "param"]) and is_e(strip(c[3]), "int"):
                 out.append((c[1], strip(c[3])[1], t))
         return out
+    INF = 1 << 70
+
+    def interval(gl):
+        """the range of len under the guards, however they are spelled (len <= 125 taken, or len > 125 not taken, ...)"""
+        lo, hi = 0, INF
+        for op, v, t in gl:
+            if not t:
+                op = {"<=": ">", "<": ">=", ">": "<=", ">=": "<"}[op]
+            if op == "<=":
+                hi = min(hi, v)
+            elif op == "<":
+                hi = min(hi, v - 1)
+            elif op == ">":
+                lo = max(lo, v + 1)
+            else:
+                lo = max(lo, v)
+        return (lo, hi)
     forms = {"first": None, "len7": None, "m126": None, "m127": None, "b16": [], "b64": None}
     for el, lhs, rhs in hdr_stores:
         pos = bypos.get(el.n, set())
@@ -308,7 +325,7 @@ def run(ctx, config):
                 forms["m127"] = (el, gl)
             elif eq(s, ["var", ln, "param"]):
                 forms["len7"] = (el, gl)
-        elif pos and pos <= {2, 3} and any(op == "<=" and v == 65535 and t for op, v, t in gl):
+        elif pos and pos <= {2, 3} and interval(gl)[1] == 65535:
             forms["b16"].append((el, pos, rr))
         else:
             forms["b64"] = (el, pos, rr)
@@ -325,9 +342,9 @@ def run(ctx, config):
         r4.inst(name, {"store": show(v[0].e) if v else None, "guards": v[1] if v and isinstance(v[1], list) else None})
         if not v or not pred(v):
             r4.bad("K6:make_ws_frame:" + name, "%s:%d" % (f.file, f.line), f.name, what)
-    need("len7", "len7", lambda v: ("<=", 125, True) in v[1], "7-bit length form must be used exactly for len <= 125")
-    need("m126", "marker126", lambda v: ("<=", 125, False) in v[1] and ("<=", 65535, True) in v[1], "marker 126 must be used exactly for 125 < len <= 65535")
-    need("m127", "marker127", lambda v: ("<=", 125, False) in v[1] and ("<=", 65535, False) in v[1], "marker 127 must be used exactly for len > 65535")
+    need("len7", "len7", lambda v: interval(v[1]) == (0, 125), "7-bit length form must be used exactly for len <= 125")
+    need("m126", "marker126", lambda v: interval(v[1]) == (126, 65535), "marker 126 must be used exactly for 125 < len <= 65535")
+    need("m127", "marker127", lambda v: interval(v[1]) == (65536, INF), "marker 127 must be used exactly for len > 65535")
     b16 = sorted(forms["b16"], key=lambda x: min(x[1]))
     ok16 = len(b16) == 2 and b16[0][1] == {2} and b16[1][1] == {3}
     if ok16:
